@@ -95,18 +95,33 @@ Inductive conforms : ty -> val -> Z -> list ustep -> Prop :=
 | CU_nil t v size : conforms t v size []
 | CU_fit t v size st tl p x v' : u_op st = Some (p, x) -> assign t v p x = Some v' -> u_ok st = true ->
     layout_ok (mkLC t v' (u_bytes st) size) = None -> conforms t v' size tl -> conforms t v size (st :: tl)
+| CU_exact t v size st tl p x v' : u_op st = Some (p, x) -> u_exact st = true -> assign_exact t v p x = Some v' -> u_ok st = true ->
+    layout_ok (mkLC t v' (u_bytes st) size) = None -> conforms t v' size tl -> conforms t v size (st :: tl)
 | CU_refused t v size st tl : (match u_op st with Some (p, x) => assign t v p x | None => None end) = None -> u_ok st = false ->
     layout_ok (mkLC t v (u_bytes st) size) = None -> conforms t v size tl -> conforms t v size (st :: tl).
 
+Lemma img_is_true t v size st : img_is t v size st = true -> layout_ok (mkLC t v (u_bytes st) size) = None.
+Proof. unfold img_is. destruct (layout_ok _); [discriminate|reflexivity]. Qed.
+
 Theorem check_updates_sound : forall steps t v size n, check_updates t v size n steps = None -> conforms t v size steps.
 Proof.
-  induction steps as [|st tl IH]; intros t v size n H; [constructor|]. cbn [check_updates] in H.
-  destruct (match u_op st with Some (p, x) => assign t v p x | None => None end) as [v'|] eqn:Ee.
-  - destruct (u_ok st) eqn:Eo; [|discriminate]. cbn [andb] in H.
-    destruct (layout_ok (mkLC t v' (u_bytes st) size)) eqn:El; [discriminate|].
-    destruct (u_op st) as [[p x]|] eqn:Eu; [|discriminate].
-    eapply CU_fit; try eassumption. eapply IH; exact H.
-  - destruct (u_ok st) eqn:Eo; [discriminate|]. cbn [negb andb] in H.
-    destruct (layout_ok (mkLC t v (u_bytes st) size)) eqn:El; [discriminate|].
-    eapply CU_refused; try eassumption. eapply IH; exact H.
+  induction steps as [|st tl IH]; intros t v size n H; [constructor|]. cbn [check_updates] in H. cbv zeta in H.
+  assert (Hex : forall v2, (if u_exact st then match u_op st with Some (p, x) => assign_exact t v p x | None => None end else None) = Some v2 ->
+             u_ok st && img_is t v2 size st = true -> check_updates t v2 size (S n) tl = None -> conforms t v size (st :: tl)).
+  { intros v2 E2 Hok Hc. destruct (u_exact st) eqn:Ex; [|discriminate]. destruct (u_op st) as [[p x]|] eqn:Eu; [|discriminate].
+    apply andb_prop in Hok. destruct Hok as [Ho Hi]. eapply CU_exact; try eassumption; [apply img_is_true; exact Hi|eapply IH; exact Hc]. }
+  assert (Href : (match u_op st with Some (p, x) => assign t v p x | None => None end) = None ->
+             negb (u_ok st) && img_is t v size st = true -> check_updates t v size (S n) tl = None -> conforms t v size (st :: tl)).
+  { intros E1 Hr Hc. apply andb_prop in Hr. destruct Hr as [Ho Hi]. apply negb_true_iff in Ho.
+    eapply CU_refused; try eassumption; [apply img_is_true; exact Hi|eapply IH; exact Hc]. }
+  destruct (match u_op st with Some (p, x) => assign t v p x | None => None end) as [v1|] eqn:E1.
+  - destruct (u_ok st && img_is t v1 size st) eqn:G1.
+    + apply andb_prop in G1. destruct G1 as [Ho Hi]. destruct (u_op st) as [[p x]|] eqn:Eu; [|discriminate].
+      eapply CU_fit; try eassumption; [apply img_is_true; exact Hi|eapply IH; exact H].
+    + destruct (if u_exact st then match u_op st with Some (p, x) => assign_exact t v p x | None => None end else None) as [v2|] eqn:E2; [|discriminate].
+      destruct (u_ok st && img_is t v2 size st) eqn:G2; [|discriminate]. eapply Hex; [reflexivity|exact G2|exact H].
+  - destruct (if u_exact st then match u_op st with Some (p, x) => assign_exact t v p x | None => None end else None) as [v2|] eqn:E2.
+    + destruct (u_ok st && img_is t v2 size st) eqn:G2; [eapply Hex; [reflexivity|exact G2|exact H]|].
+      destruct (negb (u_ok st) && img_is t v size st) eqn:G3; [|discriminate]. apply Href; [reflexivity|reflexivity|exact H].
+    + destruct (negb (u_ok st) && img_is t v size st) eqn:G3; [|discriminate]. apply Href; [reflexivity|reflexivity|exact H].
 Qed.
